@@ -1,7 +1,7 @@
 (* Evaluation helpers for the generated C04 case files (coq/Gen/Cases_C04_*.v): comparison of the reader
    model's output with the canonical dump of the document built by ttconv.imsc.reader.to_model.
    Times are compared as rationals (Qeq_bool), everything else literally. *)
-From TT Require Import Base.Prelude Base.ImscXml Model.ImscTime Model.ImscTiming Gen.ImscTables.
+From TT Require Import Base.Prelude Base.ImscXml Model.ImscTime Model.ImscStyles Model.ImscTiming Model.ImscWrite Model.ImscWriteCases Gen.ImscTables.
 From Coq Require Import QArith.
 Local Open Scope Z_scope.
 
@@ -17,17 +17,21 @@ Fixpoint list_eqb {A} (f : A -> A -> bool) (a b : list A) : bool :=
   | _, _ => false
   end.
 
-(* animation steps: attribute name and interval; the raw value is compared by the style checks *)
+Definition sv_eqb (a b : sv) : bool :=
+  match a, b with SV x, SV y => sval_eqb x y | SO x, SO y => x =? y | _, _ => false end.
+Definition sdict_eqb (a b : sdict) : bool := list_eqb (fun x y => (fst x =? fst y) && sv_eqb (snd x) (snd y)) a b.
+
+(* animation steps: property, value and interval *)
 Definition anim_eqb (a b : anim) : bool :=
-  let '(qa, _, ba, ea) := a in let '(qb, _, bb, eb) := b in
-  qname_eqb qa qb && Qeq_bool ba bb && oq_eqb ea eb.
+  let '(pa, va, ba, ea) := a in let '(pb, vb, bb, eb) := b in
+  (pa =? pb) && sv_eqb va vb && Qeq_bool ba bb && oq_eqb ea eb.
 
 Fixpoint mnode_eqb (a b : mnode) {struct a} : bool :=
   match a, b with
   | MText s, MText t => text_eqb s t
-  | MElem k1 r1 b1 e1 p1 l1 g1 a1 c1, MElem k2 r2 b2 e2 p2 l2 g2 a2 c2 =>
+  | MElem k1 r1 b1 e1 p1 l1 g1 s1 a1 c1, MElem k2 r2 b2 e2 p2 l2 g2 s2 a2 c2 =>
       ekind_eqb k1 k2 && otext_eqb r1 r2 && oq_eqb b1 b2 && oq_eqb e1 e2 && Bool.eqb p1 p2 && text_eqb l1 l2 &&
-      otext_eqb g1 g2 && list_eqb anim_eqb a1 a2 &&
+      otext_eqb g1 g2 && sdict_eqb s1 s2 && list_eqb anim_eqb a1 a2 &&
       (fix go (x y : list mnode) : bool :=
          match x, y with
          | [], [] => true
@@ -44,23 +48,37 @@ Definition dres_eqb (a b : dres) : bool :=
   match a, b with
   | DErr x, DErr y => x =? y
   | DOk d1, DOk d2 => text_eqb (d_lang d1) (d_lang d2) && list_eqb mnode_eqb (d_regions d1) (d_regions d2)
-                      && omnode_eqb (d_body d1) (d_body d2)
+                      && omnode_eqb (d_body d1) (d_body d2) && sdict_eqb (d_initials d1) (d_initials d2)
   | _, _ => false
   end.
 
-(* the <set> oracle of the timing tie: the attribute is one of the 36 style attributes (the timing documents
-   only carry well-formed values; value syntax is the business of the style checks) *)
+(* reading a style value: the parsers of Model/ImscWrite.v; tts:fontFamily, tts:opacity and tts:luminanceGain, whose value syntax is
+   not modelled, are looked up in the table the harness made by running the code's extract on every such attribute of the document
+   (equal values get equal numbers) *)
 Fixpoint style_prop_of (l : list ((Z * list Z) * Z)) (q : qname) : option Z :=
   match l with
   | [] => None
   | (k, p) :: l' => if qname_eqb k q then Some p else style_prop_of l' q
   end.
-Definition sty_known (q : qname) (_ : text) : bool :=
-  match style_prop_of imsc_style_attrs q with Some _ => true | None => false end.
+Definition opaque_prop (p : Z) : bool := (p =? P_FontFamily) || (p =? P_Opacity) || (p =? P_LuminanceGain).
+Fixpoint opaque_lookup (t : list (qname * text * option Z)) (q : qname) (raw : text) : option Z :=
+  match t with
+  | [] => None
+  | (k, r, v) :: t' => if qname_eqb k q && text_eqb r raw then v else opaque_lookup t' q raw
+  end.
+Definition to_model_inst (optab : list (qname * text * option Z)) (q : qname) (raw : text) : option (Z * sv) :=
+  match style_prop_of imsc_style_attrs q with
+  | None => None
+  | Some p =>
+      if opaque_prop p then match opaque_lookup optab q raw with Some i => Some (p, SO i) | None => None end
+      else match extract_style p raw with Some v => Some (p, SV v) | None => None end
+  end.
+Definition valid_inst (p : Z) (v : sv) : bool := match v with SV x => validate_style p x | SO _ => true end.
 
 (* short names for the literals of the case files *)
 Definition E := MElem.  Definition T := MText.  Definition S_ := @Some.
-Definition case_model (x : xml) (expected : dres) : bool := dres_eqb (read_tt sty_known x) expected.
+Definition case_model (x : xml) (optab : list (qname * text * option Z)) (expected : dres) : bool :=
+  dres_eqb (read_tt (to_model_inst optab) valid_inst x) expected.
 
 (* ---- S on the code's observations ----------------------------------------------------------------------
    [tab] maps every time-attribute string the generator printed to the abstract expression it was printed from;
